@@ -97,6 +97,16 @@ pub struct Cfg {
     pub store: StoreMode,
     /// Size of the lane <-> runtime byte channels.
     pub lane_buf: usize,
+    /// Crash (drop the agent future and every channel end) right after this harness step, then
+    /// restart a second instance against the same store.
+    #[serde(default)]
+    pub crash_at: Option<u64>,
+    /// Store fault: (kind, n) kind 0 = refuse the n-th mutating store call, 1 = apply it and kill.
+    #[serde(default)]
+    pub store_fault: Option<(u8, u64)>,
+    /// Start a second instance on the same store after the first one has ended (for any reason).
+    #[serde(default)]
+    pub restart: bool,
 }
 
 impl Cfg {
@@ -116,6 +126,9 @@ impl Cfg {
             reporting: false,
             store: StoreMode::None,
             lane_buf: 4096,
+            crash_at: None,
+            store_fault: None,
+            restart: false,
         }
     }
 }
@@ -185,6 +198,10 @@ pub struct Observation {
     pub reports_at_quiescence: Vec<(String, Option<(u64, u64, u64)>)>,
     pub store_log: Option<Arc<StoreLog>>,
     pub killed: bool,
+    /// Ground truth log of the second instance (after restart), if any.
+    pub truth2: Vec<(u64, Truth)>,
+    pub result2: Option<Result<(), String>>,
+    pub crashed_at: Option<u64>,
 }
 
 pub type Checker = fn(&Observation) -> Vec<(String, String)>;
@@ -216,10 +233,27 @@ pub struct AsWorld {
     store_log: Option<Arc<StoreLog>>,
     _http_tx: mpsc::Sender<swimos_api::agent::HttpLaneRequest>,
     checker: Checker,
+    // restart machinery
+    second: Option<Second>,
+    killed: bool,
+    crashed_at: Option<u64>,
+    first_result: Option<Result<(), String>>,
+}
+
+struct Second {
+    subject: Subject<Result<(), AgentExecError>>,
+    truth: Arc<TruthLog>,
+    stop_tx: Option<trigger::Sender>,
+    _att_tx: mpsc::Sender<AgentAttachmentRequest>,
+    _link_rx: mpsc::Receiver<LinkRequest>,
+    _http_tx: mpsc::Sender<swimos_api::agent::HttpLaneRequest>,
+    stop_fired: bool,
 }
 
 const EV_POLL: u32 = 0;
 const EV_LINK: u32 = 1;
+const EV_POLL2: u32 = 2;
+const EV_STOP2: u32 = 3;
 const EV_RECV: u32 = 100;
 const EV_RECV_T: u32 = 200;
 const EV_SEND: u32 = 300;
@@ -374,6 +408,38 @@ impl AsWorld {
     }
 }
 
+impl AsWorld {
+    fn start_second(&mut self) {
+        // crash semantics: every channel end of the first instance is gone
+        for r in self.remotes.iter_mut() {
+            r.tx = None;
+            r.rx = None;
+        }
+        self.targets.clear();
+        self.pending_link = None;
+        let truth = Arc::new(TruthLog::default());
+        truth.step.store(self.step, Ordering::SeqCst);
+        let lifecycle = TestLifecycle { log: truth.clone() };
+        let model = AgentModel::new(TestAgent::default, lifecycle.into_lifecycle());
+        let (att_tx, att_rx) = mpsc::channel(16);
+        let (http_tx, http_rx) = mpsc::channel(4);
+        let (link_tx, link_rx) = mpsc::channel(16);
+        let (stop_tx, stop_rx) = trigger::trigger();
+        let config = CombinedAgentConfig {
+            agent_config: AgentConfig::DEFAULT,
+            runtime_config: AgentRuntimeConfig { inactive_timeout: INACTIVE_TIMEOUT, prune_remote_delay: INACTIVE_TIMEOUT, shutdown_timeout: Duration::from_secs(10), ..Default::default() },
+        };
+        let descriptor = AgentRouteDescriptor { identity: AGENT_ID, route: NODE.parse().unwrap(), route_params: HashMap::new() };
+        let channels = AgentRouteChannels::new(att_rx, http_rx, link_tx);
+        let task = AgentRouteTask::new(&model, descriptor, channels, stop_rx, config, None);
+        let log = self.store_log.clone().expect("restart needs a store");
+        *log.fault.lock() = None;
+        let store = RecStore { log, instance: 2 };
+        let subject = Subject::new(tokio::task::unconstrained(task.run_agent_with_store(std::future::ready(Ok(store))).with_budget(NonZeroUsize::new(64).unwrap())));
+        self.second = Some(Second { subject, truth, stop_tx: Some(stop_tx), _att_tx: att_tx, _link_rx: link_rx, _http_tx: http_tx, stop_fired: false });
+    }
+}
+
 impl World for AsWorld {
     type Cfg = Cfg;
 
@@ -409,14 +475,16 @@ impl World for AsWorld {
         let task = AgentRouteTask::new(&model, descriptor, channels, stop_rx, config, reporting);
         let budget = NonZeroUsize::new(cfg.budget.max(1)).unwrap();
         let mut store_log = None;
-        let subject = match GLOBAL_STORE.get().and_then(|f| f(cfg)) {
-            Some((store, log)) => {
-                store_log = Some(log);
-                Subject::new(tokio::task::unconstrained(task.run_agent_with_store(std::future::ready(Ok(store))).with_budget(budget)))
-            }
+        let subject = if cfg.store == StoreMode::Recording {
+            let log = Arc::new(StoreLog::default());
+            *log.fault.lock() = cfg.store_fault.map(|(k, n)| if k == 0 { crate::store::Fault::Fail(n) } else { crate::store::Fault::KillAfter(n) });
+            let store = RecStore { log: log.clone(), instance: 1 };
+            store_log = Some(log);
             // `unconstrained`: the whole execution runs inside one poll of the block_on future, so Tokio's own
             // cooperative budget would never be reset and every Tokio resource would eventually return Pending.
-            None => Subject::new(tokio::task::unconstrained(task.run_agent().with_budget(budget))),
+            Subject::new(tokio::task::unconstrained(task.run_agent_with_store(std::future::ready(Ok(store))).with_budget(budget)))
+        } else {
+            Subject::new(tokio::task::unconstrained(task.run_agent().with_budget(budget)))
         };
         let mut remotes = vec![];
         for i in 0..cfg.remotes {
@@ -481,10 +549,29 @@ impl World for AsWorld {
             store_log,
             _http_tx: http_tx,
             checker: GLOBAL_CHECKER.get().copied().unwrap_or(noop_checker),
+            second: None,
+            killed: false,
+            crashed_at: None,
+            first_result: None,
         }
     }
 
     fn enabled(&mut self) -> Vec<u32> {
+        if let Some(sec) = self.second.as_mut() {
+            if sec.subject.runnable() {
+                return vec![EV_POLL2];
+            }
+            if sec.subject.alive() && !sec.stop_fired {
+                return vec![EV_STOP2];
+            }
+            return vec![];
+        }
+        if self.cfg.restart && (self.killed || self.crashed_at.is_some()) {
+            // killed / crashed: no draining, everything of the first instance is gone
+            self.first_result = self.subject.result.take().map(|r| r.map_err(|e| e.to_string()));
+            self.start_second();
+            return vec![EV_POLL2];
+        }
         self.poll_link_requests();
         let mut poll = vec![];
         if self.subject.runnable() {
@@ -551,6 +638,11 @@ impl World for AsWorld {
                 }
             }
             if !self.subject.alive() {
+                if self.cfg.restart && self.store_log.is_some() {
+                    self.first_result = self.subject.result.take().map(|r| r.map_err(|e| e.to_string()));
+                    self.start_second();
+                    return vec![EV_POLL2];
+                }
                 return vec![];
             }
             if self.ticks_done < self.cfg.ticks {
@@ -584,6 +676,8 @@ impl World for AsWorld {
         match code {
             EV_POLL => "poll".into(),
             EV_LINK => "serve-link-request".into(),
+            EV_POLL2 => "poll-second-instance".into(),
+            EV_STOP2 => "stop-second-instance".into(),
             EV_TICK => "tick".into(),
             EV_STOP => "stop".into(),
             c if (EV_RECV..EV_RECV_T).contains(&c) => format!("recv({})", c - EV_RECV),
@@ -605,8 +699,36 @@ impl World for AsWorld {
             l.step.store(self.step, Ordering::SeqCst);
         }
         match code {
+            EV_POLL2 => {
+                if let Some(sec) = self.second.as_mut() {
+                    sec.truth.step.store(self.step, Ordering::SeqCst);
+                    sec.subject.poll();
+                }
+            }
+            EV_STOP2 => {
+                if let Some(sec) = self.second.as_mut() {
+                    sec.stop_fired = true;
+                    if let Some(s) = sec.stop_tx.take() {
+                        s.trigger();
+                    }
+                }
+            }
             EV_POLL => {
-                let done = self.subject.poll();
+                let polled = std::panic::catch_unwind(std::panic::AssertUnwindSafe(|| self.subject.poll()));
+                let done = match polled {
+                    Ok(d) => d,
+                    Err(p) => {
+                        let is_kill = p.downcast_ref::<String>().map(|s| s.contains(crate::store::KILL_MSG)).unwrap_or(false)
+                            || p.downcast_ref::<&str>().map(|s| s.contains(crate::store::KILL_MSG)).unwrap_or(false);
+                        if !is_kill {
+                            std::panic::resume_unwind(p);
+                        }
+                        self.killed = true;
+                        self.subject.kill();
+                        self.log("agent killed at a store call".into());
+                        false
+                    }
+                };
                 if done {
                     let r = self.subject.result.as_ref().map(|r| r.as_ref().map(|_| ()).map_err(|e| e.to_string()));
                     self.log(format!("subject completed: {:?}", r));
@@ -764,6 +886,11 @@ impl World for AsWorld {
             }
             _ => {}
         }
+        if self.cfg.crash_at == Some(self.step) && self.subject.alive() && self.second.is_none() {
+            self.subject.kill();
+            self.crashed_at = Some(self.step);
+            self.log("agent crashed (future and all channel ends dropped)".into());
+        }
         if self.trace_on && self.cfg.reporting {
             self.poll_link_requests();
             let s = self.snapshot_reports();
@@ -791,8 +918,15 @@ impl World for AsWorld {
             }
         }
         let reports = if self.cfg.reporting { self.snapshot_reports() } else { vec![] };
-        let result = self.subject.result.take().map(|r| r.map_err(|e| e.to_string()));
+        let result = match self.first_result.take() {
+            Some(r) => Some(r),
+            None => self.subject.result.take().map(|r| r.map_err(|e| e.to_string())),
+        };
         let truth = self.truth.entries.lock().clone();
+        let (truth2, result2) = match self.second.as_mut() {
+            Some(sec) => (sec.truth.entries.lock().clone(), sec.subject.result.take().map(|r| r.map_err(|e| e.to_string()))),
+            None => (vec![], None),
+        };
         let obs = Observation {
             cfg: self.cfg.clone(),
             remotes: std::mem::take(&mut self.remotes),
@@ -808,7 +942,10 @@ impl World for AsWorld {
             report_totals: std::mem::take(&mut self.report_totals),
             reports_at_quiescence: std::mem::take(&mut self.quiescent_reports),
             store_log: self.store_log.clone(),
-            killed: false,
+            killed: self.killed,
+            truth2,
+            result2,
+            crashed_at: self.crashed_at,
         };
         let violations = (self.checker)(&obs);
         // digest of everything observable
@@ -833,6 +970,9 @@ impl World for AsWorld {
         for (_, t) in &obs.truth {
             feed(&format!("{:?}", t));
         }
+        for (_, t) in &obs.truth2 {
+            feed(&format!("2:{:?}", t));
+        }
         feed(&format!("{:?}", obs.result));
         let mut log = obs.trace.clone();
         if self.trace_on {
@@ -840,6 +980,14 @@ impl World for AsWorld {
                 log.push(format!("truth@{}: {:?}", s, t));
             }
             log.push(format!("result: {:?}", obs.result));
+            for (s, t) in &obs.truth2 {
+                log.push(format!("truth2@{}: {:?}", s, t));
+            }
+            if let Some(l) = &obs.store_log {
+                for (s, i, c) in l.calls.lock().iter() {
+                    log.push(format!("store@{} #{}: {:?}", s, i, c));
+                }
+            }
             for (i, r) in obs.remotes.iter().enumerate() {
                 log.push(format!("remote {} completion: {:?} closed_at {:?}", i, r.completion_reason, r.closed_at));
             }
